@@ -321,7 +321,11 @@ func (m *Dev) ccAxis(ev Event, a *AxisDesc, f *big.Rat, canNeg bool, exactReq bo
 	for _, g := range got {
 		k := [2]int{g.Ch, g.A}
 		if g.Kind != 'C' || !(k == pos || (bidir && k == neg)) {
-			return viol("cc_foreign_message", fmt.Sprintf("%s (cc %v / %v) emitted %s", ev, pos, neg, fmtMsgs(got)), "C06")
+			props := []string{"C06"}
+			if bidir {
+				props = append(props, "C07")
+			}
+			return viol("cc_foreign_message", fmt.Sprintf("%s (cc %v / %v) emitted %s", ev, pos, neg, fmtMsgs(got)), props...)
 		}
 	}
 	var exact *big.Rat
